@@ -57,6 +57,16 @@ def cascade_solver(ts):
     return S
 
 
+def cascade_ctor(ts):
+    """the same cascade given as a netlist: Solver(structures=[...], connections={...}), then the two exposures"""
+    from lekkersim.structure import Structure
+    sts = [Structure(model=two_port(t)) for t in ts]
+    conns = {sts[k].pin["b0"]: sts[k + 1].pin["a0"] for k in range(len(sts) - 1)}
+    S = lk.Solver(structures=sts, connections=conns)
+    S.map_pins({"in": sts[0].pin["a0"], "out": sts[-1].pin["b0"]})
+    return S
+
+
 def nest_solver(ts):
     """depth len(ts): level k = [two-port t_k] -- [level k-1]"""
     inner = None
@@ -94,8 +104,10 @@ class ClosedFormStream(Stream):
     shard_size = 4
 
     def generate(self, rng, tier):
-        sizes = [("cascade", 200), ("cascade", 1000), ("nest", 16), ("nest", 40), ("placed", 300)] if tier == "quick" else \
-                [("cascade", 500), ("cascade", 2000), ("cascade", 2000), ("nest", 40), ("nest", 60), ("placed", 800)]
+        sizes = [("cascade", 200), ("cascade", 1000), ("nest", 16), ("nest", 40), ("placed", 300), ("cascade_ctor", 300),
+                 ("placed_flat", 200)] if tier == "quick" else \
+                [("cascade", 500), ("cascade", 2000), ("cascade", 2000), ("nest", 40), ("nest", 60), ("placed", 800),
+                 ("cascade_ctor", 1500), ("placed_flat", 600)]
         out = []
         for kind, n in sizes:
             idx = [rng.randrange(len(PHASES) - 1) for _ in range(n)]
@@ -109,13 +121,16 @@ class ClosedFormStream(Stream):
         prod = (Fr(1), Fr(0))
         for t in ts:
             prod = cmulf(prod, t)
-        if d["kind"] == "placed":
+        if d["kind"] in ("placed", "placed_flat"):
             prod = cmulf(prod, prod)
         expected = [prod, (Fr(0), Fr(0)), prod, (Fr(0), Fr(0))]
         try:
             def go():
                 S = (cascade_solver(ts) if d["kind"] == "cascade" else
-                     placed_solver(ts) if d["kind"] == "placed" else nest_solver(ts))
+                     cascade_ctor(ts) if d["kind"] == "cascade_ctor" else
+                     placed_solver(ts) if d["kind"] in ("placed", "placed_flat") else nest_solver(ts))
+                if d["kind"] == "placed_flat":
+                    S.flatten()           # the large placed parts are dissolved into one flat netlist first
                 return S.solve()
             mod = with_timeout(120, go)
             vals = [mod.get_A("out", "in"), mod.get_A("in", "in"), mod.get_A("in", "out"),
